@@ -8,6 +8,7 @@ channel action, not from the code's tables), pairwise agreement of the alternati
 """
 import hashlib
 import itertools
+import os
 import numpy as np
 import shim  # noqa: F401
 from fractions import Fraction
@@ -21,6 +22,17 @@ from quara.objects.mprocess import MProcess
 from quara.objects.composite_system import CompositeSystem
 from quara.objects.elemental_system import ElementalSystem
 from quara.settings import Settings
+
+LEAN_EXTRA_TARGETS = ("QGen.C02",)
+
+
+def translate(ctx):
+    """regenerate lean/QGen/C02.lean from the working tree of common.REPO (ast skeleton matcher, harness/c02gen.py);
+    raises on source it cannot translate (reported as a broken obligation)"""
+    import common, c02gen, pytolean
+    pytolean.write_if_changed(os.path.join(common.LEAN, "QGen", "C02.lean"), c02gen.generate(common.REPO))
+    return []
+
 
 TOL = 1e-9          # correspondence: model (exact) vs implementation (float64)
 OTOL = 1e-10        # oracle: implementation vs numpy reference, relative to the scale of the data
@@ -286,8 +298,12 @@ class Pend:
             elif impl[0] == "err" or m[0] == "err":
                 ok = impl[0] == m[0] and impl[1] == m[1]
             elif kind == "k":
-                cnt, ksum = impl[1]
-                ok = int(m[2][0]) == cnt and close_arr(interleave(ksum), m[1], 1e-7)
+                cnt, ksum, klist = impl[1]
+                mv = np.array(m[1])
+                ok = int(m[2][0]) == cnt and mv.size == 2 * (sum(k.size for k in klist) + ksum.size)
+                if ok:   # the operators themselves (same eigh vectors, phase convention included), then the gauge invariant
+                    cut = 2 * sum(k.size for k in klist)
+                    ok = close_arr(interleave(np.array(klist)) if klist else np.zeros(0), mv[:cut], 1e-7) and close_arr(interleave(ksum), mv[cut:], 1e-7)
             else:
                 mv = np.array(m[1])
                 if post is not None:
@@ -578,11 +594,12 @@ def eig_tokens(cfg, hs):
     w, v = np.linalg.eigh(choi)
     with np.errstate(all="ignore"):
         s = np.sqrt(np.where(w > 0, w, 0.0))
-    return [",".join(q(x) for x in w), ",".join(q(x) for x in s), cl(v.T)]
+        ab = np.abs(s[:, None] * v.T)          # np.abs(np.sqrt(eigen_val) * eigen_vec), one row per eigenpair
+    return [",".join(q(x) for x in w), ",".join(q(x) for x in s), cl(v.T), ",".join(q(x) for x in ab.flatten())]
 
 
 def kraus_invariant(ks, d):
-    return (len(ks), sum((np.kron(k, k.conj()) for k in ks), np.zeros((d * d, d * d), dtype=np.complex128)))
+    return (len(ks), sum((np.kron(k, k.conj()) for k in ks), np.zeros((d * d, d * d), dtype=np.complex128)), [np.asarray(k) for k in ks])
 
 
 def corr_kraus(ctx, pend, cfg, g, eps):
@@ -1461,10 +1478,10 @@ def run_check(ctx, kind, cfg, args, rep, **kw):
 
 
 PARTIAL = [
-    {"theorem": "QM.C02.kraus_roundtrip",
-     "missing": "proved for the executable krausRaw under the explicit contract of numpy's eigh/sqrt (C = Σ λ v v^†, sqrt exact on kept "
-                "eigenvalues, filtered eigenvalues exactly 0); the phase convention of step 3 (unit-modulus factor) is not in the model "
-                "and is checked by the oracle; float accuracy of eigh is not modelled"},
+    {"theorem": "QM.C02.kraus_full_roundtrip",
+     "missing": "proved for the complete executable to_kraus_matrices_from_hs (verdict, filter, sort, scaling, phase convention) under "
+                "the explicit contracts of numpy's eigh / sqrt / abs (EighContract, AbsContract: exact kernels, filtered eigenvalues "
+                "exactly 0); the float accuracy of the kernels is not modelled (the correspondence compares the operators elementwise)"},
     {"theorem": "QM.C02.toVarFromChoi_roundtrip",
      "missing": "stated for the value before truncate_hs (toVarFromChoi{Free,Eq}Raw); the executed toVarFromChoi additionally truncates the "
                 "whole HS matrix; forward_is_not_inverse is the regression witness of the former defect D3"},
